@@ -21,6 +21,7 @@ import (
 	"fmt"
 	"os"
 	"path/filepath"
+	"runtime"
 	"sort"
 	"strconv"
 	"strings"
@@ -68,9 +69,13 @@ func parseLine(line string) (tree []blk, ops []op, ok bool) {
 	if len(f) != 4 || f[0] != "C02" || f[1] != "run" {
 		return nil, nil, false
 	}
+	return parseTreeOps(f[2], f[3])
+}
+
+func parseTreeOps(treeTok, opsTok string) (tree []blk, ops []op, ok bool) {
 	seen := map[int]bool{}
-	if f[2] != "-" {
-		for _, t := range strings.Split(f[2], ",") {
+	if treeTok != "-" {
+		for _, t := range strings.Split(treeTok, ",") {
 			p := strings.Split(t, ":")
 			var pace byte
 			if len(p) == 5 && (p[4] == "f" || p[4] == "n" || p[4] == "s") {
@@ -100,14 +105,25 @@ func parseLine(line string) (tree []blk, ops []op, ok bool) {
 			}
 		}
 	}
-	if f[3] != "-" {
-		for _, t := range strings.Split(f[3], ",") {
-			if len(t) < 2 || strings.IndexByte("bhir", t[0]) < 0 {
+	if opsTok != "-" {
+		for _, t := range strings.Split(opsTok, ",") {
+			if len(t) < 2 || strings.IndexByte("bnfhkirR", t[0]) < 0 {
 				return nil, nil, false
 			}
 			id, err := strconv.Atoi(t[1:])
-			if err != nil || id < 0 || (id != 0 && !seen[id]) || (id == 0 && (t[0] == 'b' || t[0] == 'h')) {
+			if err != nil || id < 0 {
 				return nil, nil, false
+			}
+			switch t[0] {
+			case 'R': // restart; the number selects the configuration of the next life
+			case 'i', 'r':
+				if id != 0 && !seen[id] {
+					return nil, nil, false
+				}
+			default:
+				if !seen[id] {
+					return nil, nil, false
+				}
 			}
 			ops = append(ops, op{t[0], id})
 		}
@@ -344,11 +360,70 @@ var tmpRoot = func() string {
 }()
 
 type inst struct {
-	chain *blockchain.BlockChain
-	db    database.DB
-	dir   string
-	notes []string
-	f     *factory
+	chain  *blockchain.BlockChain
+	db     database.DB
+	dir    string
+	notes  []string
+	f      *factory
+	params *chaincfg.Params
+	// results are values: every BestSnapshot ever handed out, with its rendering at that time
+	snaps    []*blockchain.BestState
+	snapStrs []string
+}
+
+func renderSnap(b *blockchain.BestState) string {
+	return fmt.Sprintf("%v/%d/%d/%d/%d/%d/%d/%d", b.Hash, b.Height, b.Bits, b.BlockSize, b.BlockWeight, b.NumTxns, b.TotalTxns, b.MedianTime.Unix())
+}
+
+func (in *inst) subscribe() {
+	in.chain.Subscribe(func(n *blockchain.Notification) {
+		blk, ok := n.Data.(*btcutil.Block)
+		if !ok {
+			return
+		}
+		id := in.f.idOf[*blk.Hash()]
+		switch n.Type {
+		case blockchain.NTBlockConnected:
+			in.notes = append(in.notes, "+"+strconv.Itoa(id))
+		case blockchain.NTBlockDisconnected:
+			in.notes = append(in.notes, "-"+strconv.Itoa(id))
+		}
+	})
+}
+
+// restart: clean shutdown (flush the utxo cache, close the database) and a new
+// BlockChain on the same database, with a different configuration of the parts
+// that must not matter (utxo cache size, signature/hash caches).
+func (in *inst) restart(cfg int) error {
+	if err := in.chain.FlushUtxoCache(blockchain.FlushRequired); err != nil {
+		return err
+	}
+	if err := in.db.Close(); err != nil {
+		return err
+	}
+	db, err := database.Open("ffldb", in.dir, in.params.Net)
+	if err != nil {
+		in.db = nil
+		return err
+	}
+	in.db = db
+	c := &blockchain.Config{
+		DB:               db,
+		ChainParams:      in.params,
+		TimeSource:       blockchain.NewMedianTime(),
+		UtxoCacheMaxSize: []uint64{8 << 20, 0, 1 << 10, 64 << 20}[cfg%4],
+	}
+	if cfg%2 == 1 {
+		c.SigCache = txscript.NewSigCache(10)
+		c.HashCache = txscript.NewHashCache(10)
+	}
+	chain, err := blockchain.New(c)
+	if err != nil {
+		return err
+	}
+	in.chain = chain
+	in.subscribe()
+	return nil
 }
 
 func (in *inst) closeNow() {
@@ -427,7 +502,7 @@ func newInstWith(params *chaincfg.Params) (*inst, error) {
 		os.RemoveAll(dir)
 		return nil, err
 	}
-	in := &inst{db: db, dir: dir}
+	in := &inst{db: db, dir: dir, params: params}
 	chain, err := blockchain.New(&blockchain.Config{
 		DB:               db,
 		ChainParams:      params,
@@ -440,19 +515,7 @@ func newInstWith(params *chaincfg.Params) (*inst, error) {
 	}
 	in.chain = chain
 	in.f = newFactory(params)
-	chain.Subscribe(func(n *blockchain.Notification) {
-		blk, ok := n.Data.(*btcutil.Block)
-		if !ok {
-			return
-		}
-		id := in.f.idOf[*blk.Hash()]
-		switch n.Type {
-		case blockchain.NTBlockConnected:
-			in.notes = append(in.notes, "+"+strconv.Itoa(id))
-		case blockchain.NTBlockDisconnected:
-			in.notes = append(in.notes, "-"+strconv.Itoa(id))
-		}
-	})
+	in.subscribe()
 	return in, nil
 }
 
@@ -471,27 +534,77 @@ func errClass(err error) string {
 
 // observe renders every view of the active chain after one op:
 //
-//	res/tip@height/c0.c1...ck/mainbits/statuses/tips/notes
+//	res/tip@height/besthdr@height/c0.c1...ck/mainbits/hdrbits/statuses/tips/notes/orphans
 //
-// chain = BlockHashByHeight for heights 0.. until the first miss; the persisted
-// height index and BlockHeightByHash are compared with it on the spot and a
-// disagreement is rendered as an extra "!db…" / "!hbh" marker; mainbits =
-// MainChainHasBlock per id 1..n; statuses = raw status byte per id (hex, '-'
-// if not indexed); tips = ChainTips sorted by id; notes = the
-// connected/disconnected notifications raised by this op.
+// chain = BlockHashByHeight for heights 0.. until the first miss; every secondary
+// accessor of the same information is compared with it on the spot and a
+// disagreement is rendered as an extra "!…" marker (which the model never
+// produces): BlockHeightByHash, the persisted height<->hash buckets, BlockByHeight,
+// BlockByHash, HeaderByHash, HeightRange, HeightToHashRange, IntervalBlockHashes,
+// LatestBlockLocator / BlockLocatorFromHash, LocateBlocks / LocateHeaders, the
+// other fields of BestSnapshot; for the header view HeaderHashByHeight,
+// HeaderHeightByHash, LatestBlockLocatorByHeader, BestChainHeaderForkHeight; for
+// the orphan pool HaveBlock vs IsKnownOrphan. mainbits = MainChainHasBlock per id;
+// hdrbits = IsValidHeader per id; statuses = raw status byte per id (hex, '-' if
+// not indexed); tips = ChainTips sorted by id; notes = the connected/disconnected
+// notifications raised by this op; orphans = per id 'o<GetOrphanRoot>' or '-'.
 func (in *inst) observe(res string, ids []int) string {
 	var sb strings.Builder
 	sb.WriteString(res)
 	snap := in.chain.BestSnapshot()
+	in.snaps = append(in.snaps, snap)
+	in.snapStrs = append(in.snapStrs, renderSnap(snap))
 	fmt.Fprintf(&sb, "/%d@%d", in.f.idOf[snap.Hash], snap.Height)
 	// the other fields of the snapshot must describe the same tip: coinbase-only
 	// blocks => total txns = height+1; median time = median of the last 11
 	// timestamps of the tip's own chain (from the factory's tree)
-	if snap.TotalTxns != uint64(snap.Height)+1 {
+	if snap.TotalTxns != uint64(snap.Height)+1 || snap.NumTxns != 1 {
 		sb.WriteString("!txns")
 	}
-	if tipB := in.f.byID[in.f.idOf[snap.Hash]]; snap.MedianTime.Unix() != in.f.mtp(tipB) {
+	tipB := in.f.byID[in.f.idOf[snap.Hash]]
+	if snap.MedianTime.Unix() != in.f.mtp(tipB) {
 		sb.WriteString("!mtp")
+	}
+	if tipB != nil && snap.Bits != tipB.bits {
+		sb.WriteString("!bits")
+	}
+	// header view
+	hh, hheight := in.chain.BestHeader()
+	fmt.Fprintf(&sb, "/%d@%d", in.f.idOf[hh], hheight)
+	{
+		// walk the factory's parent pointers from the header tip: must agree with HeaderHashByHeight
+		n := in.f.byID[in.f.idOf[hh]]
+		forkH := int32(-1)
+		for h := hheight; h >= 0; h-- {
+			want := *in.f.params.GenesisHash
+			if n != nil {
+				want = *n.block.Hash()
+			}
+			got, err := in.chain.HeaderHashByHeight(h)
+			if err != nil || *got != want {
+				sb.WriteString("!hhbh")
+				break
+			}
+			if back, err := in.chain.HeaderHeightByHash(want); err != nil || back != h {
+				sb.WriteString("!hhbh2")
+				break
+			}
+			if forkH < 0 && in.chain.MainChainHasBlock(&want) {
+				forkH = h
+			}
+			if n != nil {
+				n = n.par
+			}
+		}
+		if _, err := in.chain.HeaderHashByHeight(hheight + 1); err == nil {
+			sb.WriteString("!hhbh3")
+		}
+		if fh := in.chain.BestChainHeaderForkHeight(); fh != forkH {
+			sb.WriteString("!hfork")
+		}
+		if loc, err := in.chain.LatestBlockLocatorByHeader(); err != nil || len(loc) == 0 || *loc[0] != hh {
+			sb.WriteString("!hloc")
+		}
 	}
 	sb.WriteByte('/')
 	var chain []chainhash.Hash
@@ -508,6 +621,12 @@ func (in *inst) observe(res string, ids []int) string {
 		if hh, err := in.chain.BlockHeightByHash(hash); err != nil || hh != h {
 			sb.WriteString("!hbh")
 		}
+		if blk, err := in.chain.BlockByHeight(h); err != nil || *blk.Hash() != *hash || blk.Height() != h {
+			sb.WriteString("!bbh")
+		}
+		if blk, err := in.chain.BlockByHash(hash); err != nil || *blk.Hash() != *hash {
+			sb.WriteString("!bbhash")
+		}
 	}
 	dbc, ok := in.chain.VerifC02DBMainChain()
 	same := ok && len(dbc) == len(chain)
@@ -520,6 +639,70 @@ func (in *inst) observe(res string, ids []int) string {
 			sb.WriteString("." + strconv.Itoa(in.f.idOf[h]))
 		}
 	}
+	eq := func(a []chainhash.Hash, b []chainhash.Hash) bool {
+		if len(a) != len(b) {
+			return false
+		}
+		for i := range a {
+			if a[i] != b[i] {
+				return false
+			}
+		}
+		return true
+	}
+	n := int32(len(chain))
+	tipHash := chain[n-1]
+	if r, err := in.chain.HeightRange(0, n); err != nil || !eq(r, chain) {
+		sb.WriteString("!hr")
+	}
+	if n > 2 {
+		if r, err := in.chain.HeightRange(1, n-1); err != nil || !eq(r, chain[1:n-1]) {
+			sb.WriteString("!hr2")
+		}
+	}
+	if r, err := in.chain.HeightToHashRange(0, &tipHash, int(n)+1); err != nil || !eq(r, chain) {
+		sb.WriteString("!h2h")
+	}
+	for _, iv := range []int{1, 2, 3} {
+		r, err := in.chain.IntervalBlockHashes(&tipHash, iv)
+		okI := err == nil && len(r) == int(n-1)/iv
+		for i := 0; okI && i < len(r); i++ {
+			okI = r[i] == chain[(i+1)*iv]
+		}
+		if !okI {
+			sb.WriteString("!ivl")
+		}
+	}
+	if loc, err := in.chain.LatestBlockLocator(); err != nil || len(loc) == 0 || *loc[0] != tipHash || *loc[len(loc)-1] != chain[0] {
+		sb.WriteString("!loc")
+	} else {
+		prev := n
+		for _, l := range loc {
+			h, err := in.chain.BlockHeightByHash(l)
+			if err != nil || h >= prev {
+				sb.WriteString("!loc2")
+				break
+			}
+			prev = h
+		}
+		loc2 := in.chain.BlockLocatorFromHash(&tipHash)
+		if len(loc2) != len(loc) {
+			sb.WriteString("!loc3")
+		}
+	}
+	if r := in.chain.LocateBlocks(blockchain.BlockLocator{&chain[0]}, &chainhash.Hash{}, 500); !eq(r, chain[1:minI(len(chain), 501)]) {
+		sb.WriteString("!lb")
+	}
+	if r := in.chain.LocateHeaders(blockchain.BlockLocator{&chain[0]}, &chainhash.Hash{}); len(r) != minI(len(chain)-1, 2000) {
+		sb.WriteString("!lh")
+	} else {
+		for i := range r {
+			if r[i].BlockHash() != chain[i+1] {
+				sb.WriteString("!lh2")
+				break
+			}
+		}
+	}
 	sb.WriteByte('/')
 	for _, id := range ids {
 		x := in.f.byID[id]
@@ -530,6 +713,16 @@ func (in *inst) observe(res string, ids []int) string {
 		}
 	}
 	sb.WriteByte('/')
+	for _, id := range ids {
+		x := in.f.byID[id]
+		if x != nil && x.block != nil && in.chain.IsValidHeader(x.block.Hash()) {
+			sb.WriteByte('1')
+		} else {
+			sb.WriteByte('0')
+		}
+	}
+	sb.WriteByte('/')
+	var orph []string
 	for i, id := range ids {
 		if i > 0 {
 			sb.WriteByte('.')
@@ -537,6 +730,7 @@ func (in *inst) observe(res string, ids []int) string {
 		x := in.f.byID[id]
 		if x == nil || x.block == nil {
 			sb.WriteByte('-')
+			orph = append(orph, "-")
 			continue
 		}
 		st, ok := in.chain.VerifC02NodeStatus(x.block.Hash())
@@ -544,6 +738,23 @@ func (in *inst) observe(res string, ids []int) string {
 			sb.WriteByte('-')
 		} else {
 			sb.WriteString(strconv.FormatUint(uint64(st), 16))
+		}
+		// the header accessor knows exactly the indexed nodes
+		if hdr, err := in.chain.HeaderByHash(x.block.Hash()); (err == nil) != ok || (err == nil && hdr.BlockHash() != *x.block.Hash()) {
+			sb.WriteString("!hdr")
+		}
+		isOrph := in.chain.IsKnownOrphan(x.block.Hash())
+		have, _ := in.chain.HaveBlock(x.block.Hash())
+		if have != (isOrph || (ok && st&1 != 0)) {
+			sb.WriteString("!have")
+		}
+		if isOrph {
+			orph = append(orph, "o"+strconv.Itoa(in.f.idOf[*in.chain.GetOrphanRoot(x.block.Hash())]))
+		} else {
+			if r := in.chain.GetOrphanRoot(x.block.Hash()); *r != *x.block.Hash() {
+				sb.WriteString("!oroot")
+			}
+			orph = append(orph, "-")
 		}
 	}
 	sb.WriteByte('/')
@@ -572,14 +783,54 @@ func (in *inst) observe(res string, ids []int) string {
 		sb.WriteString(n)
 	}
 	in.notes = in.notes[:0]
+	sb.WriteByte('/')
+	sb.WriteString(strings.Join(orph, "."))
 	return sb.String()
 }
 
+func minI(a, b int) int {
+	if a < b {
+		return a
+	}
+	return b
+}
+
 func (P) Exec(line string) string {
+	f := strings.Fields(line)
+	if len(f) >= 4 && f[0] == "C02" && f[1] == "par" && len(f)%2 == 0 {
+		// independent histories on independent chains, run concurrently at staggered offsets
+		n := (len(f) - 2) / 2
+		outs := make([]string, n)
+		var wg sync.WaitGroup
+		for i := 0; i < n; i++ {
+			wg.Add(1)
+			go func(i int) {
+				defer wg.Done()
+				defer func() {
+					if r := recover(); r != nil {
+						outs[i] = "panic"
+					}
+				}()
+				time.Sleep(time.Duration(i*3) * time.Millisecond)
+				tree, ops, ok := parseTreeOps(f[2+2*i], f[3+2*i])
+				if !ok {
+					outs[i] = "bad-op"
+					return
+				}
+				outs[i] = execOne(tree, ops, true)
+			}(i)
+		}
+		wg.Wait()
+		return strings.Join(outs, "#")
+	}
 	tree, ops, ok := parseLine(line)
 	if !ok {
 		return "bad-op"
 	}
+	return execOne(tree, ops, false)
+}
+
+func execOne(tree []blk, ops []op, yield bool) string {
 	var in *inst
 	var err error
 	if len(tree) > 0 && tree[0].pace != 0 {
@@ -590,7 +841,7 @@ func (P) Exec(line string) string {
 	if err != nil {
 		return "harness-error"
 	}
-	defer in.close()
+	defer func() { in.close() }()
 	tm := map[int]blk{}
 	ids := make([]int, 0, len(tree))
 	for _, b := range tree {
@@ -614,22 +865,25 @@ func (P) Exec(line string) string {
 		var res string
 		var hash *chainhash.Hash
 		var x *built
-		if o.id == 0 {
-			hash = in.f.params.GenesisHash
-		} else {
-			x = in.f.byID[o.id]
-			hash = x.block.Hash()
+		if o.kind != 'R' {
+			if o.id == 0 {
+				hash = in.f.params.GenesisHash
+			} else {
+				x = in.f.byID[o.id]
+				hash = x.block.Hash()
+			}
 		}
 		switch o.kind {
-		case 'b':
-			var blkk *btcutil.Block
-			if x == nil {
-				blkk = btcutil.NewBlock(in.f.params.GenesisBlock)
-			} else {
-				// a fresh wrapper per delivery, as a peer would hand it over
-				blkk = btcutil.NewBlock(x.block.MsgBlock())
+		case 'b', 'n', 'f':
+			flags := blockchain.BFNone
+			if o.kind == 'n' {
+				flags = blockchain.BFNoPoWCheck
+			} else if o.kind == 'f' {
+				flags = blockchain.BFFastAdd
 			}
-			isMain, isOrphan, err := in.chain.ProcessBlock(blkk, blockchain.BFNone)
+			// a fresh wrapper per delivery, as a peer would hand it over
+			blkk := btcutil.NewBlock(x.block.MsgBlock())
+			isMain, isOrphan, err := in.chain.ProcessBlock(blkk, flags)
 			switch {
 			case err != nil:
 				res = errClass(err)
@@ -640,18 +894,16 @@ func (P) Exec(line string) string {
 			default:
 				res = "s"
 			}
-		case 'h':
-			var hdr *wire.BlockHeader
-			if x == nil {
-				hdr = &in.f.params.GenesisBlock.Header
-			} else {
-				hdr = &x.block.MsgBlock().Header
-			}
-			_, err := in.chain.ProcessBlockHeader(hdr, blockchain.BFNone, false)
-			if err != nil {
+		case 'h', 'k':
+			hdr := x.block.MsgBlock().Header // a copy, as a peer would hand it over
+			isMain, err := in.chain.ProcessBlockHeader(&hdr, blockchain.BFNone, o.kind == 'k')
+			switch {
+			case err != nil:
 				res = errClass(err)
-			} else {
-				res = "k"
+			case isMain:
+				res = "m"
+			default:
+				res = "s"
 			}
 		case 'i':
 			if err := in.chain.InvalidateBlock(hash); err != nil {
@@ -665,11 +917,26 @@ func (P) Exec(line string) string {
 			} else {
 				res = "k"
 			}
+		case 'R':
+			if err := in.restart(o.id); err != nil {
+				return "harness-error"
+			}
+			res = "k"
 		}
 		out = append(out, in.observe(res, ids))
+		if yield {
+			runtime.Gosched()
+		}
 	}
 	if len(out) == 0 {
 		return "-"
+	}
+	// results are values: every snapshot handed out earlier still reads as it did then
+	for i, sp := range in.snaps {
+		if renderSnap(sp) != in.snapStrs[i] {
+			out[len(out)-1] += "!snapalias"
+			break
+		}
 	}
 	return strings.Join(out, ";")
 }
